@@ -321,3 +321,22 @@ def unparse(e: Any) -> str:
         return ast.unparse(e)
     except Exception:
         return repr(e)
+
+
+def conjuncts(e: ast.AST, L: Optional["Locals"] = None, stop: Tuple[str, ...] = ()) -> List[ast.AST]:
+    """Flattened conjuncts of a condition: temporaries inlined, `bool(x)` unwrapped, nested `and` flattened."""
+    if L is not None:
+        e = L.inline(e, stop=stop)
+    out: List[ast.AST] = []
+
+    def go(x: ast.AST) -> None:
+        while isinstance(x, ast.Call) and isinstance(x.func, ast.Name) and x.func.id == "bool" and len(x.args) == 1 and not x.keywords:
+            x = x.args[0]
+        if isinstance(x, ast.BoolOp) and isinstance(x.op, ast.And):
+            for v in x.values:
+                go(v)
+        else:
+            out.append(x)
+
+    go(e)
+    return out
